@@ -602,6 +602,9 @@ func (f *SQLFormatter) formatJoin(join *ast.JoinClause) error {
 
 // formatExpression formats SQL expressions
 func (f *SQLFormatter) formatExpression(expr ast.Expression) error {
+	if expr == nil {
+		return nil // an absent optional operand prints as nothing instead of crashing
+	}
 	switch e := expr.(type) {
 	case *ast.Identifier:
 		if e.Table != "" {
